@@ -452,6 +452,7 @@ fn spawn_client(rig: &Arc<Rig>, cid: usize) -> Client {
                 let r = std::panic::catch_unwind(AssertUnwindSafe(|| {
                     futures::executor::block_on(exec(&rig, cid, cmd.clone(), &mut batches))
                 }));
+                REC_GET.with(|c| c.set(false));
                 let v = match r {
                     Ok(v) => v,
                     Err(p) => {
